@@ -19,7 +19,7 @@ RULE = ("directory trees (depth <=3, thorough <=5; empty directories, directorie
         "without CMake files and >=1 non-CMake file whose name contains 'cmake'; distinct by SHA-1 of the case")
 ASSUMPTIONS = ["no exclude patterns (C15's domain)", "the input directory holds a .cmake file when auto-exclusion is on",
                "directory-listing orders are emulated by permuting os.scandir inside the harness process"]
-BUDGET = {"quick": {"shards": 4, "examples": 120}, "thorough": {"shards": 16, "examples": 1500}}
+BUDGET = {"quick": {"shards": 8, "examples": 80}, "thorough": {"shards": 16, "examples": 1500}}
 
 
 def strategy(tier):
